@@ -421,6 +421,10 @@ func runConcrete(u *Universe, c *Contract, cins []concreteInput, rf *ReplayFile,
 		rf.Verdict = fmt.Sprintf("no-failing-input-found: the function panicked (%v) and its contract allows some panics", p)
 		return
 	}
+	if len(c.Lets) > 0 {
+		rf.Verdict = "no-failing-input-found: the real function returns normally on the model's input; its postconditions mention ghost bindings of internal values and cannot be re-evaluated from outputs alone"
+		return
+	}
 	// re-evaluate every ensures clause on the observed values
 	failedClause, err := evalEnsuresConcrete(u, c, cins, obs, scratch)
 	if err != "" {
